@@ -66,6 +66,7 @@ type knownClass struct {
 type fnInfo struct {
 	idx    map[ssa.Value]int
 	nregs  int
+	defBlock []*ssa.BasicBlock // per register: defining block (nil for parameters and free variables)
 	ipdom  map[*ssa.BasicBlock]*ssa.BasicBlock
 }
 
@@ -94,6 +95,14 @@ func getFnInfo(fn *ssa.Function) *fnInfo {
 		}
 	}
 	fi.nregs = n
+	fi.defBlock = make([]*ssa.BasicBlock, n)
+	for _, b := range fn.Blocks {
+		for _, in := range b.Instrs {
+			if v, ok := in.(ssa.Value); ok {
+				fi.defBlock[fi.idx[v]] = b
+			}
+		}
+	}
 	fi.ipdom = computeIPDom(fn)
 	v, _ := fnInfoCache.LoadOrStore(fn, fi)
 	return v.(*fnInfo)
@@ -184,6 +193,8 @@ type specFrame struct {
 	order  []*Cell
 	blocks int
 	stopAt *ssa.BasicBlock
+	preset []Value // phi values of stopAt already merged by a nested if-conversion ending at the same join
+	hasPre bool
 }
 
 type WorkItem struct {
@@ -375,7 +386,9 @@ func b2i(b bool) int64 {
 }
 
 // concretise a symbolic integer: enumerate all feasible values (signed interpretation).
-func (e *Exec) concretise(t *Term) int64 {
+func (e *Exec) concretise(t *Term) int64 { return e.concretiseN(t, 0) }
+
+func (e *Exec) concretiseN(t *Term, limit int) int64 {
 	if t.IsConst() {
 		return t.S64()
 	}
@@ -401,7 +414,9 @@ func (e *Exec) concretise(t *Term) int64 {
 		models = append(models, nil)
 		block = e.tf.Not(e.tf.Cmp(OEq, t, e.tf.Const(int(t.W), v)))
 	}
-	limit := e.cfg.ConcretiseCap
+	if limit == 0 {
+		limit = e.cfg.ConcretiseCap
+	}
 	if limit == 0 {
 		limit = 64
 	}
@@ -641,6 +656,17 @@ func (e *Exec) constVal(c *ssa.Const) Value {
 const maxDepth = 200
 
 func (e *Exec) call(fn *ssa.Function, args []Value) Value {
+	if len(e.cfg.Redirect) > 0 {
+		if to, ok := e.cfg.Redirect[fn.String()]; ok {
+			i := strings.LastIndex(to, ".")
+			pkg := e.prog.ImportedPackage(to[:i])
+			if pkg == nil || pkg.Func(to[i+1:]) == nil {
+				e.unsupported("redirect target %s not found", to)
+			}
+			e.fnsEntered["(summarised by its specification) "+fn.String()] = true
+			fn = pkg.Func(to[i+1:])
+		}
+	}
 	if r, ok := e.tryIntrinsic(fn, args); ok {
 		return r
 	}
@@ -1034,10 +1060,6 @@ func (e *Exec) tryIfConvert(f *Frame, x *ssa.If, c *Term, b *ssa.BasicBlock) (*s
 	if e.cfg.NoIfConv || f.fi.ipdom == nil {
 		return nil, false
 	}
-	if e.pos < len(e.prefix) {
-		// while replaying a prefix we must reproduce the original decision structure: a merge
-		// consumed no decision originally iff it succeeds now (deterministic), so just try again.
-	}
 	join := f.fi.ipdom[b]
 	if join == nil {
 		return nil, false
@@ -1045,17 +1067,25 @@ func (e *Exec) tryIfConvert(f *Frame, x *ssa.If, c *Term, b *ssa.BasicBlock) (*s
 	if n, bad := e.noSpec[x]; bad && n >= 2 {
 		return nil, false
 	}
-	for _, sf := range e.spec {
-		if sf.stopAt == join {
+	for i, sf := range e.spec {
+		if sf.stopAt == join && i != len(e.spec)-1 {
 			return nil, false
 		}
 	}
 	type armRes struct {
 		sf   *specFrame
-		pred *ssa.BasicBlock
+		regs []Value
+		phis []Value
 	}
 	savedRegs := append([]Value{}, f.regs...)
 	savedInstr := e.instrs
+	fail := func() (*ssa.BasicBlock, bool) {
+		copy(f.regs, savedRegs)
+		e.instrs = savedInstr
+		e.noSpec[x]++
+		f.prev = nil
+		return nil, false
+	}
 	run := func(start *ssa.BasicBlock) (res armRes, ok bool) {
 		sf := &specFrame{writes: map[*Cell]Value{}, stopAt: join}
 		e.spec = append(e.spec, sf)
@@ -1072,34 +1102,46 @@ func (e *Exec) tryIfConvert(f *Frame, x *ssa.If, c *Term, b *ssa.BasicBlock) (*s
 				panic(r)
 			}
 		}()
+		copy(f.regs, savedRegs)
 		f.prev = b
 		if start != join {
 			e.runFrom(f, start, join, false)
 		}
-		return armRes{sf, f.prev}, true
+		// this arm's values for the phis of the join, taken now (later iterations of an enclosing
+		// loop executed by the other arm reuse the same registers)
+		var phis []Value
+		for k, in := range join.Instrs {
+			ph, isPhi := in.(*ssa.Phi)
+			if !isPhi {
+				break
+			}
+			if sf.hasPre {
+				phis = append(phis, sf.preset[k])
+				continue
+			}
+			pi := -1
+			for i, p := range join.Preds {
+				if p == f.prev {
+					pi = i
+				}
+			}
+			if pi < 0 {
+				panic(specAbort{"join predecessor"})
+			}
+			phis = append(phis, e.get(f, ph.Edges[pi]))
+		}
+		return armRes{sf, append([]Value{}, f.regs...), phis}, true
 	}
 	rt, ok1 := run(b.Succs[0])
-	var rf armRes
-	ok2 := false
-	if ok1 {
-		rf, ok2 = run(b.Succs[1])
+	if !ok1 {
+		return fail()
 	}
-	if !ok1 || !ok2 {
-		copy(f.regs, savedRegs)
-		e.instrs = savedInstr
-		e.noSpec[x]++
-		f.prev = nil
-		return nil, false
+	rf, ok2 := run(b.Succs[1])
+	if !ok2 {
+		return fail()
 	}
-	// merge writes
-	type mw struct {
-		c *Cell
-		v Value
-	}
-	var merged []mw
-	seen := map[*Cell]bool{}
 	mergeVal := func(vt, vf Value) (Value, bool) {
-		if vt == vf {
+		if sameVal(vt, vf) {
 			return vt, true
 		}
 		tt, okT := vt.(*Term)
@@ -1109,6 +1151,13 @@ func (e *Exec) tryIfConvert(f *Frame, x *ssa.If, c *Term, b *ssa.BasicBlock) (*s
 		}
 		return nil, false
 	}
+	// merge memory writes
+	type mw struct {
+		c *Cell
+		v Value
+	}
+	var merged []mw
+	seen := map[*Cell]bool{}
 	for _, arm := range []*specFrame{rt.sf, rf.sf} {
 		for _, cell := range arm.order {
 			if seen[cell] {
@@ -1125,56 +1174,74 @@ func (e *Exec) tryIfConvert(f *Frame, x *ssa.If, c *Term, b *ssa.BasicBlock) (*s
 			}
 			v, ok := mergeVal(vt, vf)
 			if !ok {
-				copy(f.regs, savedRegs)
-				e.instrs = savedInstr
-				e.noSpec[x]++
-				f.prev = nil
-				return nil, false
+				return fail()
 			}
 			merged = append(merged, mw{cell, v})
 		}
 	}
-	// phis at join
+	// merge registers that are live after the join: values defined in blocks that dominate the join
+	// and were (re-)executed inside the arms (loop-carried values when the arms run different
+	// numbers of iterations of an enclosing loop)
+	regs := rf.regs
+	for i := range regs {
+		if sameVal(rt.regs[i], rf.regs[i]) {
+			continue
+		}
+		db := f.fi.defBlock[i]
+		if db == nil || db == join || !db.Dominates(join) {
+			continue
+		}
+		if rt.regs[i] == nil || rf.regs[i] == nil {
+			return fail()
+		}
+		v, ok := mergeVal(rt.regs[i], rf.regs[i])
+		if !ok {
+			return fail()
+		}
+		regs[i] = v
+	}
 	var phiVals []Value
-	for _, in := range join.Instrs {
-		ph, ok := in.(*ssa.Phi)
+	for k := range rt.phis {
+		v, ok := mergeVal(rt.phis[k], rf.phis[k])
 		if !ok {
-			break
-		}
-		idx := func(pred *ssa.BasicBlock) int {
-			for k, p := range join.Preds {
-				if p == pred {
-					return k
-				}
-			}
-			return -1
-		}
-		it, iff := idx(rt.pred), idx(rf.pred)
-		if it < 0 || iff < 0 {
-			copy(f.regs, savedRegs)
-			e.instrs = savedInstr
-			e.noSpec[x]++
-			f.prev = nil
-			return nil, false
-		}
-		// values computed inside an arm live in f.regs (both arms wrote distinct registers)
-		v, ok := mergeVal(e.get(f, ph.Edges[it]), e.get(f, ph.Edges[iff]))
-		if !ok {
-			copy(f.regs, savedRegs)
-			e.instrs = savedInstr
-			e.noSpec[x]++
-			f.prev = nil
-			return nil, false
+			return fail()
 		}
 		phiVals = append(phiVals, v)
 	}
+	copy(f.regs, regs)
 	for _, m := range merged {
 		e.storeCell(m.c, m.v)
 	}
 	for k, v := range phiVals {
 		f.regs[f.fi.idx[join.Instrs[k].(*ssa.Phi)]] = v
 	}
+	if n := len(e.spec); n > 0 && e.spec[n-1].stopAt == join {
+		// inside an enclosing speculative arm that ends at the same join: hand it the merged phis
+		e.spec[n-1].preset, e.spec[n-1].hasPre = phiVals, true
+	}
 	return join, true
+}
+
+// sameVal: identity comparison that tolerates uncomparable dynamic types.
+func sameVal(a, b Value) bool {
+	ta, isA := a.(TupleV)
+	tb, isB := b.(TupleV)
+	if isA || isB {
+		if !isA || !isB || len(ta) != len(tb) {
+			return false
+		}
+		for i := range ta {
+			if !sameVal(ta[i], tb[i]) {
+				return false
+			}
+		}
+		return true
+	}
+	if fa, ok := a.(FloatV); ok {
+		fb, ok2 := b.(FloatV)
+		return ok2 && fa == fb
+	}
+	return a == b
 }
 
 // ---------- misc ----------
